@@ -89,6 +89,7 @@ pub struct MNode {
     pub scope: Option<(Tag, u32)>,
     pub cutoff: CutKind,
     pub writes: Vec<WriteSpec>,
+    pub env_refs: Vec<Tag>,
     pub valid: bool,
     pub invalid_round: Option<Round>,
     pub cache: Cache,
@@ -224,6 +225,7 @@ impl Model {
             scope: d.scope,
             cutoff: d.cutoff,
             writes: d.writes.clone(),
+            env_refs: d.env_refs.clone(),
             valid: true,
             invalid_round: None,
             cache: Cache::Never,
@@ -408,6 +410,26 @@ impl Model {
             }
         }
         out
+    }
+
+    /// nodes kept alive through strong references from `roots` (handles, observed nodes):
+    /// inputs, a bind's current right-hand side, and whatever closures own
+    pub fn strongly_reachable(&self, roots: &[Tag]) -> Vec<bool> {
+        let mut seen = vec![false; self.nodes.len()];
+        let mut stack: Vec<Tag> = roots.to_vec();
+        while let Some(t) = stack.pop() {
+            if !self.has(t) || seen[t as usize] {
+                continue;
+            }
+            seen[t as usize] = true;
+            let n = self.node(t);
+            stack.extend(n.inputs.iter().copied());
+            stack.extend(n.env_refs.iter().copied());
+            if let Some(b) = &n.bind {
+                stack.extend(b.rhs.iter().copied());
+            }
+        }
+        seen
     }
 
     fn mark_cone_at_call(&mut self, roots: &[Tag]) {
